@@ -30,7 +30,10 @@ CapOK(e) ==
   LET held == {r \in recs : r.kind = "acquire" /\ r.u = e.u /\ r.n > 0} IN
   /\ (\E r \in held : Protected(r, e.now)) => e.granted < e.max          \* a live instance's count still occupies capacity
   /\ (\A r \in held : DeadLong(r.i, e.now)) => e.granted = e.max         \* capacity counted for dead instances is free again
-Accept == CASE Ev.k = "obs" -> ObsOK(Ev) [] Ev.k = "capacity" -> CapOK(Ev) [] OTHER -> TRUE
+\* right after a report has been answered the upstream's recorded allocated total is the sum of the quotas on record for it: what a reclaimed
+\* instance held is no longer counted, i.e. available to the others (global-allocate counterpart of CapOK)
+SumOK(e) == e.sum = e.livesum
+Accept == CASE Ev.k = "obs" -> ObsOK(Ev) [] Ev.k = "capacity" -> CapOK(Ev) [] Ev.k = "sumobs" -> SumOK(Ev) [] OTHER -> TRUE
 Next == /\ l <= Len(Traces[tr].events) /\ Accept
         /\ l' = l + 1 /\ tr' = tr
         /\ CASE Ev.k = "hb" ->
